@@ -2620,6 +2620,10 @@ class RockRidge:
 
         if px_record_length == 44 or sf_record_length == 21 or has_es_record or er_id == EXT_ID_112:
             self.rr_version = '1.12'
+        elif continuation and self.rr_version and px_record_length is None and sf_record_length is None and er_id is None:
+            # Nothing in the continuation area tells the version apart; keep
+            # what the entries in the directory record said.
+            pass
         else:
             # Not 1.12, so either 1.09 or 1.10.
             if sf_record_length == 12:
